@@ -72,8 +72,8 @@ REUSE = (["right", "left", "left"], ["left", "left", "right"], ["left", "right"]
 # accepted; if they are ever accepted the matrix must be the model's (nothing else is demanded).
 # Unsigned arrays are NOT generated: 2*a-1 wraps for a = 0 and generate_transformation of /repo HEAD returns NaN
 # rows for them at every l (noted in the round-d report to the lead).
-CART_DTYPES = ("int8", "int16", "int32", "int64", "int8", "int16", "list", "tuples")
-ARRAY_DTYPES = ("int8", "int16", "int32", "int64")
+CART_DTYPES = ("int8", "int16", "int32", "int64", "uint8", "uint16", "uint64", "int8", "int16", "list", "tuples")
+ARRAY_DTYPES = ("int8", "int16", "int32", "int64", "uint8", "uint16", "uint32", "uint64")   # unsigned: defect repaired by fix e0b85db
 
 
 def with_dtype(case, k):
